@@ -179,6 +179,10 @@ def wrapper_checks(m, ent, sname, lab, tier, out):
             except Exception as ex_:
                 bad('split-interpolate-restricted-exception', f"{rl}: {ex_!r}")
                 break
+    if ent.name.startswith('ElementVector(Vector('):
+        # rank-2 (nested) vector: components are vector-valued themselves; only the split/interpolate identities apply here
+        out.outcome((ent.name, nc, N))
+        return
     # (2) coupling form with all blocks distinct == block matrix of the component assemblies
     coef = np.array([[1.0 + 2 * a + 5 * bb + (a * bb) for bb in range(nc)] for a in range(nc)])
     for mk_label, mk in (('cells', lambda e_: CellBasis(m, e_, intorder=4)),
